@@ -17,9 +17,10 @@ const (
 	Before   = "before"   // statement i has no effect; an error is returned
 	After    = "after"    // statement i takes effect; an error is returned; the process is dead: every later call fails
 	VerWrite = "verwrite" // the first version/marker INSERT issued after statement i fails without effect
+	Refused  = "refused"  // statement i has no effect and fails, and so does every repetition of the same statement text during this run (a statement the server keeps refusing until the next start)
 )
 
-var Kinds = []string{Before, After, VerWrite}
+var Kinds = []string{Before, After, VerWrite, Refused}
 
 // Fault is injected at statement index Index (0-based position in the connection's log).
 type Fault struct {
@@ -93,6 +94,7 @@ type Conn struct {
 	Unmodelled []string // statement shapes that could not be decided: the run is inconclusive
 	OnApplied  func(e *Entry, c *Catalogue)
 	armed      bool // verwrite armed
+	refused    string // bound text of the statement a `refused` fault hit: every repetition fails too
 	dead       bool
 	Fired      bool // the fault was actually injected
 }
@@ -167,14 +169,19 @@ func (c *Conn) do(op, q string, args []any) *Entry {
 		switch c.Fault.Kind {
 		case Before, After:
 			kind = c.Fault.Kind
+		case Refused:
+			kind = Refused
+			c.refused = b
 		case VerWrite:
 			c.armed = true
 		}
+	} else if c.refused != "" && b == c.refused {
+		kind = Refused
 	} else if c.armed && e.IsVersionWrite() {
 		kind = VerWrite
 		c.armed = false
 	}
-	if kind == Before || kind == VerWrite {
+	if kind == Before || kind == VerWrite || kind == Refused {
 		e.Injected, e.Err, c.Fired = kind, ErrInjected, true
 		return e
 	}
